@@ -85,8 +85,28 @@ type mismatch struct {
 	Model string `json:"model"`
 }
 
+// A propFinding is an input on which the REAL code contradicts the property itself (decided by an oracle
+// that does not involve the Lean model): it becomes the replay of a VIOLATION.
+type propFinding struct {
+	Sig    string `json:"signature"`
+	Detail string `json:"detail"`
+	Case   string `json:"case"`
+}
+
+var propFindings []propFinding
+var propSeen = map[string]int{}
+
+func reportProp(sig, detail, caseLine string) {
+	propSeen[sig]++
+	if propSeen[sig] == 1 {
+		propFindings = append(propFindings, propFinding{sig, detail, caseLine})
+	}
+}
+
 type report struct {
 	Model       string         `json:"model"`
+	Findings    []propFinding  `json:"findings"`
+	BySig       map[string]int `json:"findings_by_signature"`
 	Seed        int64          `json:"seed"`
 	Evaluations int            `json:"evaluations"`
 	Distinct    int            `json:"distinct_nontrivial"`
@@ -184,6 +204,7 @@ func main() {
 		rep.First = append(rep.First, mismatch{"<driver answered " + strconv.Itoa(i) + " of " + strconv.Itoa(len(reals)) + " cases>", "", ""})
 	}
 	rep.Evaluations = len(reals)
+	rep.Findings, rep.BySig = propFindings, propSeen
 	rep.WallS = time.Since(t0).Seconds()
 	b, _ := json.MarshalIndent(rep, "", " ")
 	if *out != "" {
@@ -191,7 +212,7 @@ func main() {
 	} else {
 		fmt.Println(string(b))
 	}
-	if rep.Mismatches > 0 {
+	if rep.Mismatches > 0 || len(rep.Findings) > 0 {
 		os.Exit(1)
 	}
 }
